@@ -191,6 +191,12 @@ pub struct W11 {
     pub has_path_rewrite: bool,
     pub desc: Vec<String>,
     pub lex_payload: String,
+    /// surfaces of the directed compounds of the SECOND user dictionary whose A split, B split and word
+    /// structure are `U`-references into that same dictionary (empty when the world has none)
+    pub rebase_texts: Vec<String>,
+    /// the system dictionary carries the directed ill-formed split declarations (unit longer than its parent,
+    /// unit ending inside a character)
+    pub d6_rows: bool,
 }
 
 fn kata(rng: &mut Rng, n: usize) -> String {
@@ -289,6 +295,67 @@ fn gen_user_rows(rng: &mut Rng, sys: &[Row], npos: usize, n_ids: usize) -> Vec<R
     rows
 }
 
+/// directed rows for the dictionary-id fix-up of `LexiconSet::get_word_info_subset`: two plain words and two
+/// compounds whose A split, B split and word structure refer to them with `U<n>` (the builder stores
+/// dictionary number 1; the reader has to re-stamp them with the number of THIS dictionary).  The compounds
+/// are so cheap that they are on the best path of their own surface.
+fn add_rebase_rows(rng: &mut Rng, rows: &mut Vec<Row>, sys: &[Row], npos: usize, n_ids: usize) -> Vec<String> {
+    let i0 = rows.len();
+    let pool: Vec<char> = (0..3).map(|_| *rng.pick(&['あ', 'い', 'ア', 'イ', '東', '京', 'a', 'b', '𠮷'])).collect();
+    let id = |rng: &mut Rng| rng.below(n_ids) as i32;
+    let wa = rand_word(rng, &pool, 2);
+    let wb = rand_word(rng, &pool, 2);
+    let (la, ra, lb, rb) = (id(rng), id(rng), id(rng), id(rng));
+    rows.push(Row::simple(&wa, la, ra, 3000, rng.below(npos)));
+    rows.push(Row::simple(&wb, lb, rb, 3000, rng.below(npos)));
+    let refs = format!("U{}/U{}", i0, i0 + 1);
+    let mut c1 = Row::simple(&format!("{}{}", wa, wb), id(rng), id(rng), -30000, rng.below(npos));
+    c1.mode = 'C';
+    c1.split_a = refs.clone();
+    c1.split_b = refs.clone();
+    c1.wstruct = refs.clone();
+    let cand: Vec<usize> = (0..sys.len()).filter(|&j| sys[j].surface.len() < 20).collect();
+    let j = *rng.pick(&cand);
+    let mut c2 = Row::simple(&format!("{}{}{}", wb, sys[j].surface, wa), id(rng), id(rng), -30000, rng.below(npos));
+    c2.mode = 'C';
+    c2.split_a = format!("U{}/{}/U{}", i0 + 1, j, i0);
+    c2.split_b = format!("U{}/{}/U{}", i0 + 1, j, i0);
+    c2.wstruct = format!("U{}/{}", i0, j);
+    let texts = vec![c1.surface.clone(), c2.surface.clone()];
+    rows.push(c1);
+    rows.push(c2);
+    texts
+}
+
+/// directed ill-formed split declarations (what `NodeSplitIterator::next` clamps and snaps since the repair
+/// of D6): `東` = `東京都 / 京` (first unit longer than the parent), `東京` = `a / 京` in A (first unit ends inside
+/// a character) and `東京都 / a / 京` in B (clamped, then an empty unit)
+fn add_d6_rows(rng: &mut Rng, rows: &mut Vec<Row>, n_ids: usize) {
+    let id = |rng: &mut Rng| rng.below(n_ids) as i32;
+    let base = rows.len();
+    for w in ["東京都", "京", "a"] {
+        let (l, r) = (id(rng), id(rng));
+        rows.push(Row::simple(w, l, r, 7000, 0));
+    }
+    let (long, kyo, a) = (base, base + 1, base + 2);
+    let mut r1 = Row::simple("東", id(rng), id(rng), -30000, 0);
+    r1.mode = 'C';
+    r1.split_a = format!("{}/{}", long, kyo);
+    r1.split_b = format!("{}/{}", long, kyo);
+    rows.push(r1);
+    let mut r2 = Row::simple("東京", id(rng), id(rng), -30000, 0);
+    r2.mode = 'C';
+    r2.split_a = format!("{}/{}", a, kyo);
+    r2.split_b = format!("{}/{}/{}", long, a, kyo);
+    rows.push(r2);
+}
+
+pub const REBASE_SLOT0: usize = 4;
+pub const REBASE_SLOTS: usize = 15;
+pub const D6_SLOT0: usize = REBASE_SLOT0 + REBASE_SLOTS;
+pub const D6_SLOTS: usize = 4;
+const D6_TEXTS: [&str; D6_SLOTS] = ["東京東", "東京東", "東", "東京"];
+
 pub fn gen_w11(rng: &mut Rng, tag: &str, widx: usize) -> Result<W11, String> {
     let wd = Workdir::new(tag);
     let mut desc = vec![];
@@ -298,6 +365,10 @@ pub fn gen_w11(rng: &mut Rng, tag: &str, widx: usize) -> Result<W11, String> {
     let mut lex = gen_lexicon(rng, n_ids, size, false, true);
     // overlong surfaces make compound rows exceed the trie key limit: keep keys short
     tweak_system_rows(rng, &mut lex.rows, widx == 0);
+    // every fourth world (the first included) is directed: ill-formed split declarations in the system dictionary,
+    // two user dictionaries, U-references inside the second one
+    let directed_world = widx % 4 == 0;
+    if directed_world { add_d6_rows(rng, &mut lex.rows, n_ids); }
     let csv = csv_of(&lex.rows, &lex.pos);
     let mut system = build_system(csv.as_bytes(), matrix.text().as_bytes())?;
     let sys_nosyn = widx % 4 == 3;
@@ -329,7 +400,8 @@ pub fn gen_w11(rng: &mut Rng, tag: &str, widx: usize) -> Result<W11, String> {
     desc.push(format!("input-plugins:{}", input.len()));
     let cfg = config_json(&wd, &input, &oov, &pr, &[]);
 
-    let nusers = if widx == 0 { 2 } else { rng.below(3) };
+    let nusers = if directed_world { 2 } else { rng.below(3) };
+    let mut rebase_texts: Vec<String> = vec![];
     let mut rows_all = vec![lex.rows.clone()];
     let mut user_bins = vec![];
     if nusers > 0 {
@@ -340,7 +412,8 @@ pub fn gen_w11(rng: &mut Rng, tag: &str, widx: usize) -> Result<W11, String> {
             for e in 0..extra {
                 pos.push(["名詞".into(), "固有名詞".into(), format!("ユーザ{}{}", u, e), "*".into(), "*".into(), "*".into()]);
             }
-            let rows = gen_user_rows(rng, &lex.rows, pos.len(), n_ids);
+            let mut rows = gen_user_rows(rng, &lex.rows, pos.len(), n_ids);
+            if directed_world && u == 1 { rebase_texts = add_rebase_rows(rng, &mut rows, &lex.rows, pos.len(), n_ids); }
             let ucsv = csv_of(&rows, &pos);
             let mut ub = build_user(&base, ucsv.as_bytes())?;
             if rng.chance(1, 4) { strip_synonym_flag(&mut ub, false); desc.push("user-synonyms:false".into()); }
@@ -349,6 +422,7 @@ pub fn gen_w11(rng: &mut Rng, tag: &str, widx: usize) -> Result<W11, String> {
         }
     }
     desc.push(format!("users:{}", nusers));
+    if directed_world { desc.push("directed:d6-units+U-references-in-second-user-dictionary".into()); }
 
     let mut bins = vec![cut_records(&system, true)?];
     for ub in &user_bins { bins.push(cut_records(ub, false)?); }
@@ -371,7 +445,7 @@ pub fn gen_w11(rng: &mut Rng, tag: &str, widx: usize) -> Result<W11, String> {
         join(pos_offsets.iter(), ","),
         nsys
     );
-    Ok(W11 { wd, dic, bins, pos_offsets, nsys, rows: rows_all, has_path_rewrite, desc, lex_payload })
+    Ok(W11 { wd, dic, bins, pos_offsets, nsys, rows: rows_all, has_path_rewrite, desc, lex_payload, rebase_texts, d6_rows: directed_world })
 }
 
 fn world_for(seed: u64, widx: usize) -> Result<W11, String> {
@@ -435,6 +509,9 @@ fn wi_case(run: &mut Run, idx: usize, w: &W11, d: usize, k: usize) {
     if full.surface.encode_utf16().count() >= 128 || full.reading.encode_utf16().count() >= 128 || full.norm.encode_utf16().count() >= 128 { run.bump("wi:two-byte-length-prefix"); }
     if full.a.len() >= 100 { run.bump("wi:array>=100"); }
     if d > 0 && full.pos as usize >= w.pos_offsets[d] { run.bump("wi:user-defined-pos"); }
+    if d >= 2 && full.a.iter().chain(full.b.iter()).chain(full.ws.iter()).any(|&x| (x >> 28) as usize == d) {
+        run.bump("wi:second-user-dictionary-word-with-U-references");
+    }
 
     let mut seen: Vec<String> = vec![];
     let mut fail = |run: &mut Run, key: String, what: String| {
@@ -579,12 +656,31 @@ fn gen_ops(rng: &mut Rng, directed: usize) -> (Mode, Vec<Op>, u32) {
             _ => rng.below(1024) as u32,
         }
     };
-    let mode0 = m(rng);
+    let mut mode0 = m(rng);
     let ops = match directed {
         0 => vec![Op::S(DIC_FORM_WORD_ID)],                       // D10
         1 => vec![Op::S(0), Op::M(Mode::A)],                       // split flag added without normalize
         2 => vec![Op::M(Mode::B), Op::S(0)],
         3 => vec![Op::S(SURFACE | POS_ID | NORMALIZED_FORM)],
+        // exactly one of SPLIT_A / SPLIT_B / WORD_STRUCTURE, modes A and B, both orders of set_mode / set_subset (+ mode C)
+        d if d >= REBASE_SLOT0 && d < REBASE_SLOT0 + REBASE_SLOTS => {
+            let k = d - REBASE_SLOT0;
+            let flag = [1u32 << 6, 1 << 7, 1 << 8][k / 5];
+            match k % 5 {
+                0 => vec![Op::S(flag), Op::M(Mode::A)],
+                1 => vec![Op::M(Mode::A), Op::S(flag)],
+                2 => vec![Op::S(flag), Op::M(Mode::B)],
+                3 => vec![Op::M(Mode::B), Op::S(flag)],
+                _ => { mode0 = Mode::C; vec![Op::S(flag)] }
+            }
+        }
+        // ill-formed units: clamped to the parent / moved back to a character start
+        d if d >= D6_SLOT0 && d < D6_SLOT0 + D6_SLOTS => match d - D6_SLOT0 {
+            0 => vec![Op::M(Mode::A)],
+            1 => vec![Op::M(Mode::B)],
+            2 => vec![Op::S(0), Op::M(Mode::A)],
+            _ => vec![Op::M(Mode::B), Op::S(2)],
+        },
         _ => match rng.below(7) {
             0 => vec![Op::S(sub(rng))],
             1 => vec![Op::S(sub(rng)), Op::M(m(rng))],
@@ -664,6 +760,14 @@ fn tok_case(run: &mut Run, idx: usize, w: &W11, slot: usize) {
     let mut rng = Rng::for_case(run.opts.seed, idx);
     let text = match slot {
         0 => w.rows[0].iter().filter(|r| r.left >= 0 && r.surface.chars().count() <= 8).map(|r| r.surface.clone()).collect::<Vec<_>>().concat(),
+        d if d >= REBASE_SLOT0 && d < REBASE_SLOT0 + REBASE_SLOTS && !w.rebase_texts.is_empty() => {
+            run.bump("tok:directed:U-references-of-second-user-dictionary");
+            w.rebase_texts.concat()
+        }
+        d if d >= D6_SLOT0 && d < D6_SLOT0 + D6_SLOTS && w.d6_rows => {
+            run.bump("tok:directed:ill-formed-units");
+            D6_TEXTS[d - D6_SLOT0].to_string()
+        }
         _ => world_text(&mut rng, w, 12),
     };
     let (mode0, ops, requested) = gen_ops(&mut rng, slot);
@@ -769,7 +873,9 @@ fn tok_sweep(run: &mut Run, idx: usize, w: &W11) {
 
 pub fn run(run: &mut Run) {
     run.rule = "worlds = generated system dictionary (+0-2 user dictionaries, own POS, U-references, with/without synonym flag in \
-the header) with forms equal/different from the headword, dictionary forms none/self/other, splits, word structure, synonym ids, \
+the header; every fourth world directed: two user dictionaries, compounds of the SECOND one whose A/B split and word structure are \
+U-references into it, requests with exactly one of SPLIT_A/SPLIT_B/WORD_STRUCTURE x modes A/B/C x both orders of set_mode/set_subset, \
+and ill-formed split declarations that NodeSplitIterator clamps / moves back to a character start) with forms equal/different from the headword, dictionary forms none/self/other, splits, word structure, synonym ids, \
 1- and 2-byte length prefixes, arrays up to 127; per world 40 `wi` slots (one word x all 1024 subsets through \
 LexiconSet::get_word_info_subset) and 88 `tok` slots (random order of set_mode/set_subset, random text, all modes) plus one \
 oracle-only sweep of 1024 subsets x 3 modes; non-trivial wi = word with >= 2 optional fields present, tok = >= 2 morphemes with a \
